@@ -9,7 +9,7 @@ use simple_predicates::Expr;
 use std::cell::RefCell;
 use std::rc::Rc;
 use tephra::error::*;
-use tephra::{Context, Lexer, ParseError, ParseResult, ParseResultExt as _, Spanned, Success};
+use tephra::{Context, Lexer, ParseError, ParseResult, ParseResultExt as _, Success};
 use tephra_combinator::*;
 use tephra_error::{recover_after, recover_after_any, recover_before, recover_before_any, Recover};
 use tephra_span::Span;
@@ -608,7 +608,7 @@ pub fn build<'t>(g: &G, env: &Env<'t>) -> P<'t> {
         Sub(a) => Box::new(sub(bx(a))),
         Spanned(a) => {
             let mut p = spanned(bx(a));
-            Box::new(move |l, c| p(l, c).map_value(|s: Spanned<Val>| Val::Spanned(s.span, Box::new(s.value))))
+            Box::new(move |l, c| p(l, c).map_value(|s: tephra::Spanned<Val>| Val::Spanned(s.span, Box::new(s.value))))
         }
         Text(a) => {
             let mut p = text(bx(a));
